@@ -156,11 +156,11 @@ inline const char* pair_regime(const geodtab::Ell& E, const Pair& P, double a12)
   long double l12 = fabsl(remainderl((long double)P.lon2 - (long double)P.lon1, 360.0L));
   if (E.f > 0 && std::fabs(P.lat1) <= 1e-3 && std::fabs(P.lat2) <= 1e-3 && l12 < 28.6L && fabsl(l12 / (1 - (long double)E.f) - 180) <= 180e-6L)
     return "equatorial-conjugate-shortline";
-  // nearly-equatorial-steep: both points within 1e-8 deg of the equator but not both on it, longitude difference beyond (1-max(f,0))180 - 1:
+  // nearly-equatorial-steep: both points within 0.001 deg of the equator but not both on it, longitude difference beyond (1-max(f,0))180 - 2:
   //     lambda12(alp1) changes by O(1) over |cos alp1| < 1e-15, the bisection stops on its ABSOLUTE interval test tolb_
   {
     double m1 = std::fabs(P.lat1), m2 = std::fabs(P.lat2);
-    if (m1 <= 1e-8 && m2 <= 1e-8 && (m1 != 0 || m2 != 0) && l12 >= (1 - (E.f > 0 ? (long double)E.f : 0.0L)) * 180 - 1) return "nearly-equatorial-steep";
+    if (m1 <= 1e-3 && m2 <= 1e-3 && (m1 != 0 || m2 != 0) && l12 >= (1 - (E.f > 0 ? (long double)E.f : 0.0L)) * 180 - 2) return "nearly-equatorial-steep";
   }
   if (a12 >= 179.9 || l12 >= 179.9L) return "near-antipodal";
   return "general";
@@ -175,7 +175,7 @@ inline std::vector<Pt> metric_points(const geodtab::Ell& E, bool T) {
   v.push_back({0, (1 - E.f) * 180 - 1e-3}); v.push_back({0, (1 - E.f) * 180 + 1e-3});
   v.push_back({30, 360}); v.push_back({-45, -359});                          // coincident with (30,0) and (-45,1)
   if (T) {                                                                   // second level (appended: the quick set is unchanged)
-    for (double la : {-60.0, -1e-3, 1 / 16.0, 75.0}) for (double lo : {0.0, 45.0, 135.0, 180.0, -90.0, -179.5}) v.push_back({la, lo});
+    for (double la : {-60.0, -0.5, 1 / 16.0, 75.0}) for (double lo : {0.0, 45.0, 135.0, 180.0, -90.0, -179.5}) v.push_back({la, lo});
     for (double la1 : {-0.5, -89.0}) for (double x : {-2.0, -1.0, 0.0}) for (double y : {-1.0, 0.0, 1.0}) v.push_back(astroid_point(E, la1, x, y));
     for (int k = 0; k < 8; ++k) { double th = k * M_PI / 4; v.push_back({-89.9999 + 1e-8 * std::cos(th), 1e-8 * std::sin(th) / std::cos(89.9999 * M_PI / 180)}); }   // about 1 mm x a/6378137
     v.push_back({90, 77}); v.push_back({-90, -13});                           // the poles once more, other longitudes
